@@ -1287,3 +1287,151 @@ Proof.
   apply run_root_x_correct; assumption.
 Qed.
 End T6.
+
+(* ------------------------------------------------------------------ *)
+(* the default depth-first order passes the order check, for every tree with
+   distinct leaves (so (T5) is an instance of (T6))                         *)
+Lemma tree_eqb_refl s : tree_eqb s s = true.
+Proof. apply tree_eqb_eq. reflexivity. Qed.
+Lemma tmem_iff a F : tmem a F = true <-> In a F.
+Proof.
+  split; [apply tmem_In|]. intros H. unfold tmem. apply existsb_exists. exists a. split; [exact H|apply tree_eqb_refl].
+Qed.
+Lemma tmem_ext a F F' : (forall s, In s F <-> In s F') -> tmem a F = tmem a F'.
+Proof.
+  intros H. destruct (tmem a F') eqn:E.
+  - apply tmem_iff, H, tmem_iff, E.
+  - destruct (tmem a F) eqn:E2; [|reflexivity]. apply tmem_iff, H, tmem_iff in E2. congruence.
+Qed.
+
+Lemma sched_b_ext t order : forall F F', (forall s, In s F <-> In s F') ->
+  sched_b t F order = sched_b t F' order.
+Proof.
+  induction order as [|[flag s] rest IH]; intros F F' H; cbn [sched_b]; [reflexivity|].
+  destruct s as [k|a b]; [reflexivity|].
+  rewrite (tmem_ext a F F' H), (tmem_ext b F F' H). f_equal.
+  destruct rest as [|p rest']; [reflexivity|]. f_equal.
+  apply IH. intros s. cbn [In]. rewrite !in_tremove, H. tauto.
+Qed.
+
+Lemma sched_b_step t F a b p rest :
+  sched_b t F ((false, Node a b) :: p :: rest)
+  = tmem a F && tmem b F && negb (tree_eqb a b) && sched_b t (Node a b :: tremove a (tremove b F)) (p :: rest).
+Proof. reflexivity. Qed.
+Lemma sched_b_last t F a b :
+  sched_b t F [(true, Node a b)] = tmem a F && tmem b F && negb (tree_eqb a b) && tree_eqb (Node a b) t.
+Proof. reflexivity. Qed.
+
+Definition keep_outside (s : tree) (u : tree) : bool :=
+  match u with Leaf k => negb (memb k (leaves s)) | Node _ _ => true end.
+Definition drop (s : tree) (F : list tree) : list tree := filter (keep_outside s) F.
+(* the internal nodes in F have nothing in common with s *)
+Definition clean (F : list tree) (s : tree) : Prop :=
+  forall a b, In (Node a b) F -> forall x, In x (leaves (Node a b)) -> ~ In x (leaves s).
+
+Lemma in_drop s u F : In u (drop s F) <-> In u F /\ keep_outside s u = true.
+Proof. unfold drop. apply filter_In. Qed.
+
+Lemma not_in_drop_self s F : clean F s -> ~ In s (drop s F).
+Proof.
+  intros Hc H. apply in_drop in H. destruct H as [HF Hk]. destruct s as [k|a b].
+  - cbn [keep_outside leaves memb existsb] in Hk. rewrite Nat.eqb_refl in Hk. discriminate.
+  - destruct (leaves_nonempty (Node a b)) as [x Hx]. apply (Hc a b HF x Hx Hx).
+Qed.
+
+Lemma dfs_sub t s : forall F rest, rest <> [] -> NoDup (leaves s) ->
+  (forall k, In k (leaves s) -> In (Leaf k) F) -> clean F s ->
+  sched_b t F (map (pair false) (post_sub s) ++ rest) = sched_b t (s :: drop s F) rest.
+Proof.
+  induction s as [k|l IHl r IHr]; intros F rest Hne ND Hleaf Hclean.
+  - cbn [post_sub map app]. apply sched_b_ext. intros u. cbn [In]. rewrite in_drop.
+    split.
+    + intros Hu. destruct (tree_eqb (Leaf k) u) eqn:E; [left; apply tree_eqb_eq, E|right]. split; [exact Hu|].
+      destruct u as [k'|a b]; [|reflexivity]. cbn [keep_outside leaves memb existsb]. rewrite orb_false_r.
+      apply negb_true_iff. destruct (Nat.eqb_spec k' k) as [->|]; [|reflexivity].
+      cbn [tree_eqb] in E. rewrite Nat.eqb_refl in E. discriminate.
+    + intros [<-|[Hu _]]; [apply Hleaf; left; reflexivity|exact Hu].
+  - cbn [leaves] in ND, Hleaf. destruct (NoDup_app_elim _ _ ND) as [NDl NDr].
+    assert (Hdisj : forall x, In x (leaves l) -> In x (leaves r) -> False)
+      by (intros x; apply (NoDup_app_disj _ _ x ND)).
+    cbn [post_sub]. rewrite !map_app, <- !app_assoc. cbn [map app].
+    (* left subtree *)
+    rewrite (IHl F); [|destruct (map (pair false) (post_sub r)); discriminate|exact NDl| |].
+    2:{ intros k Hk. apply Hleaf, in_app_iff. left; exact Hk. }
+    2:{ intros a b Hab x Hx Hxl. apply (Hclean a b Hab x Hx). cbn [leaves]. apply in_app_iff. left; exact Hxl. }
+    (* right subtree *)
+    set (F1 := l :: drop l F).
+    rewrite (IHr F1); [|discriminate|exact NDr| |].
+    2:{ intros k Hk. right. apply in_drop. split; [apply Hleaf, in_app_iff; right; exact Hk|].
+        cbn [keep_outside]. apply negb_true_iff, memb_false. intros Hin. apply (Hdisj k Hin Hk). }
+    2:{ intros a b [E|Hab] x Hx Hxr.
+        - rewrite <- E in Hx. apply (Hdisj x Hx Hxr).
+        - apply in_drop in Hab. apply (Hclean a b (proj1 Hab) x Hx). cbn [leaves]. apply in_app_iff. right; exact Hxr. }
+    (* the node itself *)
+    set (F2 := r :: drop r F1).
+    destruct rest as [|p rest']; [contradiction|].
+    rewrite sched_b_step.
+    assert (Hlr : l <> r).
+    { intros E. destruct (leaves_nonempty l) as [x Hx]. apply (Hdisj x Hx). rewrite <- E. exact Hx. }
+    assert (Ml : tmem l F2 = true).
+    { apply tmem_iff. right. apply in_drop. split; [left; reflexivity|].
+      destruct l as [k|a b]; [|reflexivity]. cbn [keep_outside]. apply negb_true_iff, memb_false.
+      intros Hin. apply (Hdisj k); [left; reflexivity|exact Hin]. }
+    assert (Mr : tmem r F2 = true) by (apply tmem_iff; left; reflexivity).
+    assert (Nlr : tree_eqb l r = false).
+    { destruct (tree_eqb l r) eqn:E; [apply tree_eqb_eq in E; contradiction|reflexivity]. }
+    rewrite Ml, Mr, Nlr. cbn [negb andb].
+    apply sched_b_ext. intros u. cbn [In]. rewrite !in_tremove.
+    assert (Hl_clean : clean F l).
+    { intros a b Hab x Hx Hxl. apply (Hclean a b Hab x Hx). cbn [leaves]. apply in_app_iff. left; exact Hxl. }
+    assert (Hr_clean : clean F r).
+    { intros a b Hab x Hx Hxr. apply (Hclean a b Hab x Hx). cbn [leaves]. apply in_app_iff. right; exact Hxr. }
+    assert (Hkeep : keep_outside (Node l r) u = keep_outside l u && keep_outside r u).
+    { destruct u as [k|a b]; [|reflexivity]. cbn [keep_outside leaves]. unfold memb. rewrite existsb_app.
+      rewrite negb_orb. reflexivity. }
+    split.
+    + intros [E|[[Hu Nr] Nl]]; [left; exact E|right].
+      destruct Hu as [E|Hu]; [congruence|]. apply in_drop in Hu. destruct Hu as [[E|Hu] Kr]; [congruence|].
+      apply in_drop in Hu. destruct Hu as [Hu Kl].
+      apply in_drop. split; [exact Hu|]. rewrite Hkeep, Kl, Kr. reflexivity.
+    + intros [E|Hu]; [left; exact E|right].
+      apply in_drop in Hu. destruct Hu as [Hu K]. rewrite Hkeep in K. apply andb_true_iff in K. destruct K as [Kl Kr].
+      assert (Nl : u <> l).
+      { intros ->. apply (not_in_drop_self l F Hl_clean). apply in_drop. tauto. }
+      assert (Nr : u <> r).
+      { intros ->. apply (not_in_drop_self r F Hr_clean). apply in_drop. tauto. }
+      split; [|exact Nl]. split; [|exact Nr].
+      right. apply in_drop. split; [|exact Kr]. right. apply in_drop. tauto.
+Qed.
+
+Theorem dfs_order_valid l r : NoDup (leaves l ++ leaves r) ->
+  valid_order_b (Node l r) (traverse_dfs (Node l r)) = true.
+Proof.
+  intros ND. unfold valid_order_b. cbn [traverse_dfs leaves].
+  set (F0 := map Leaf (leaves l ++ leaves r)).
+  destruct (NoDup_app_elim _ _ ND) as [NDl NDr].
+  assert (Hdisj : forall x, In x (leaves l) -> In x (leaves r) -> False)
+    by (intros x; apply (NoDup_app_disj _ _ x ND)).
+  assert (Hclean0 : forall s, clean F0 s).
+  { intros s a b Hab. apply in_map_iff in Hab. destruct Hab as (k & E & _). discriminate. }
+  rewrite map_app, <- app_assoc.
+  rewrite (dfs_sub (Node l r) l F0); [|destruct (map (pair false) (post_sub r)); discriminate|exact NDl| |apply Hclean0].
+  2:{ intros k Hk. apply in_map, in_app_iff. left; exact Hk. }
+  set (F1 := l :: drop l F0).
+  rewrite (dfs_sub (Node l r) r F1); [|discriminate|exact NDr| |].
+  2:{ intros k Hk. right. apply in_drop. split; [apply in_map, in_app_iff; right; exact Hk|].
+      cbn [keep_outside]. apply negb_true_iff, memb_false. intros Hin. apply (Hdisj k Hin Hk). }
+  2:{ intros a b [E|Hab] x Hx Hxr.
+      - rewrite <- E in Hx. apply (Hdisj x Hx Hxr).
+      - apply in_drop in Hab. apply (Hclean0 r a b (proj1 Hab) x Hx Hxr). }
+  rewrite sched_b_last.
+  assert (Ml : tmem l (r :: drop r F1) = true).
+  { apply tmem_iff. right. apply in_drop. split; [left; reflexivity|].
+    destruct l as [k|a b]; [|reflexivity]. cbn [keep_outside]. apply negb_true_iff, memb_false.
+    intros Hin. apply (Hdisj k); [left; reflexivity|exact Hin]. }
+  assert (Mr : tmem r (r :: drop r F1) = true) by (apply tmem_iff; left; reflexivity).
+  assert (Nlr : tree_eqb l r = false).
+  { destruct (tree_eqb l r) eqn:E; [|reflexivity]. apply tree_eqb_eq in E.
+    destruct (leaves_nonempty l) as [x Hx]. exfalso. apply (Hdisj x Hx). rewrite <- E. exact Hx. }
+  rewrite Ml, Mr, Nlr. cbn [negb andb]. apply tree_eqb_refl.
+Qed.
